@@ -1,5 +1,5 @@
 (* C01 — every request is answered with its own reply, in issue order.  Statements only. *)
-From MPD Require Import Bytes Tables BuilderModel LoopModel LoopProofs LoopSpec LoopSpecProofs ServerModel DriverLoop LoopRefine LoopRefineProofs.
+From MPD Require Import Bytes Tables BuilderModel LoopModel LoopProofs LoopSpec LoopSpecProofs ServerModel DriverLoop LoopRefine LoopRefineProofs LoopCancel LoopCancelProofs.
 Open Scope N_scope.
 
 (* for EVERY schedule: whatever a responder is handed is the server's reply to the bytes of a request
@@ -27,7 +27,8 @@ Theorem c01_success_frames : forall cur done,
 Proof. reflexivity. Qed.
 
 (* cancellation is invisible to the loop: its step function has no input describing whether a
-   caller still listens, so the replies of the others cannot depend on it *)
+   caller still listens, so the replies of the others cannot depend on it (the statement about whole runs of the
+   executable system is c01_cancel_erasure below) *)
 Theorem c01_step_ignores_liveness : forall wf p i, exists p' outs, cstep wf p i = (p', outs).
 Proof. intros. destruct (cstep wf p i) as [p' outs]. eauto. Qed.
 
@@ -58,13 +59,21 @@ Example c01_two_callers :
 Proof. vm_compute. auto. Qed.
 
 (* ---- the EXECUTABLE system (see Props/C05.v, c05_exec_refines) ----
-   For every label sequence of the fault-free fragment, the results the callers are handed, in the
-   order they are handed out, are the server's replies (echo, ACK, binary ... split as raw_command
-   does) to a PREFIX of the issued requests in issue order: every caller gets the decoded reply to
-   its own request line, no reply is skipped, duplicated or given to another caller. *)
+   For every label sequence of the fault-free fragment — single commands AND command lists —, the
+   results the callers are handed, in the order they are handed out, are the server's replies (echo,
+   ACK, binary ...; for a list: the frames of the commands that succeeded, then the error if one
+   failed — [res_of]) to a PREFIX of the issued requests in issue order: every caller gets the
+   decoded reply to its own request, no reply is skipped, duplicated or given to another caller. *)
 Theorem c01_exec_own_replies : forall cf labs gls, in_fragment cf labs gls ->
   exists k, flat_map g_res (snd (xrun (xinit cf) labs)) = map (echo_result cf) (firstn k (flat_map issued_of gls)).
 Proof. exact exec_own_replies. Qed.
+
+(* what the caller of a list is handed when its second command fails: the frame of the first, then the error *)
+Example c01_exec_partial_list :
+  res_of (list_bytes [b "status"; b "fail 5 x"; b "stats"]) (echo_reply ex_cf (list_bytes [b "status"; b "fail 5 x"; b "stats"])) =
+  CRAck (mkErr 5 1 (Some (b "fail")) (b "boom")) [mkFrame [(b "line", b "status")] None] /\
+  good ex_cf (GIssueL 7 [b "status"; b "fail 5 x"; b "stats"]) = true.
+Proof. split; vm_compute; reflexivity. Qed.
 
 Example c01_exec_example :
   flat_map g_res (snd (xrun (xinit ex_cf) ex_labs)) =
@@ -72,9 +81,57 @@ Example c01_exec_example :
   flat_map g_ev (snd (xrun (xinit ex_cf) ex_labs)) = map ev_text [b "player"; b "mixer"].
 Proof. exact ex_outcome. Qed.
 
+(* ---- cancellation in the EXECUTABLE system (LoopCancel.v) ----
+   A caller that gives up (label x<id>) changes nothing but the absence of its own result.  [hide c x] is the state x without the
+   callers whose ids are in c, [hide_run] runs the labels with every x<id> replaced by a no-op and hides the cancelled callers'
+   results, segment by segment.  The statement holds from ANY connected state, for EVERY label list without h (handle dropped) and
+   a (album art: a caller with follow-up requests) whose request ids are distinct — all fault labels (e, r, w, G:, p/u, q/Q/Z, k)
+   included: cancellation commutes with faults too. *)
+Theorem c01_cancel_erasure : forall ls seen c x, CInv seen x -> incl c seen -> cancel_ok seen ls = true ->
+  xrun (hide c x) ls = hide_run seen c x ls.
+Proof. exact cancel_erasure. Qed.
+
+(* from the start of a session, segment by segment: the same writes, events, connection results and panics; the results are those
+   of the run without cancellations minus (some) results of cancelled callers; the end states differ in the live callers only *)
+Theorem c01_exec_cancel : forall cf ls, cancel_ok [] ls = true ->
+  Forall2 (seg_hidden (cancels ls)) (snd (xrun (xinit cf) ls)) (snd (xrun (xinit cf) (map erase_label ls))) /\
+  exists c, incl c (cancels ls) /\ fst (xrun (xinit cf) ls) = hide c (fst (xrun (xinit cf) (map erase_label ls))).
+Proof. exact exec_cancel. Qed.
+
+(* nobody but a cancelled caller loses its result, and no result appears that the run without cancellations does not hand out *)
+Theorem c01_exec_cancel_others : forall cf ls r, cancel_ok [] ls = true ->
+  In r (flat_map g_res (snd (xrun (xinit cf) (map erase_label ls)))) -> ~ In (fst r) (cancels ls) ->
+  In r (flat_map g_res (snd (xrun (xinit cf) ls))).
+Proof. exact exec_cancel_others. Qed.
+
+(* with the refinement: inside the fault-free fragment the results handed out while callers cancel are, in order, the replies to a
+   prefix of the issued requests with only results of cancelled callers missing ([dropped]); the wire and the events are those of
+   the run without cancellation; the server is never violated; nothing panics *)
+Theorem c01_exec_cancel_session : forall cf ls gls, cancel_ok [] ls = true -> in_fragment cf (map erase_label ls) gls ->
+  let segs := snd (xrun (xinit cf) ls) in
+  let plain := snd (xrun (xinit cf) (map erase_label ls)) in
+  (exists k, dropped (cancels ls) (flat_map g_res segs) (map (echo_result cf) (firstn k (flat_map issued_of gls)))) /\
+  map g_w segs = map g_w plain /\ map g_ev segs = map g_ev plain /\
+  Forall (fun g => g_panic g = false) segs /\
+  s_violated (x_srv (fst (xrun (xinit cf) ls))) = false.
+Proof. exact exec_cancel_session. Qed.
+
+(* the in-flight caller and a queued caller give up: only the third request is handed a result, all three reach the wire *)
+Example c01_cancel_example :
+  cancel_ok [] ex_cancel_labs = true /\ cancels ex_cancel_labs = [1; 2] /\
+  in_fragment ex_cf (map erase_label ex_cancel_labs) ex_cancel_gls /\
+  flat_map g_res (snd (xrun (xinit ex_cf) ex_cancel_labs)) = map (echo_result ex_cf) [mkReq 3 (b "currentsong" ++ [LF])] /\
+  flat_map g_w (snd (xrun (xinit ex_cf) ex_cancel_labs)) =
+    noidle_line ++ b "status" ++ [LF] ++ b "stats" ++ [LF] ++ b "currentsong" ++ [LF].
+Proof. exact ex_cancel_summary. Qed.
+
 Print Assumptions c01_own_reply.
 Print Assumptions c01_issue_order.
 Print Assumptions c01_partial_failure.
 Print Assumptions c01_all_answered_in_order.
 Print Assumptions c01_progress.
 Print Assumptions c01_exec_own_replies.
+Print Assumptions c01_cancel_erasure.
+Print Assumptions c01_exec_cancel.
+Print Assumptions c01_exec_cancel_others.
+Print Assumptions c01_exec_cancel_session.
